@@ -388,7 +388,7 @@ func c02wfReplay(ctx *vh.Ctx, raw json.RawMessage) error {
 func runC02Workflow(ctx *vh.Ctx) error {
 	ctx.Res.Rule += " | workflows (kind=workflow): random acyclic compose.Workflow, 1-7 nodes (thorough 1-11), AddInput / AddDependency / WithNoDirectDependency, branches without data flow (single/multi, converging, nested skips), static values, END fed by several nodes; each under scripted completion orders, a free run with seeded yields and (thorough) Stream mode; non-trivial = >=2 nodes, >=2 completions and (control-only | data-only dependency | branch | zero-input node)"
 	n := ctx.N(3000, 30000)
-	limit := time.Duration(ctx.N(11, 70)) * time.Second
+	limit := time.Duration(ctx.N(11, 40)) * time.Second
 	start := time.Now()
 	for i := 0; i < n && time.Since(start) < limit; i++ {
 		o := gcase.WGenOpts{MaxNodes: 7, FailPct: 4, BranchPct: 30, Natives: false}
